@@ -2009,3 +2009,31 @@ variant('t-receive-loop-while-true', ['C01'], RB,
 variant('t-start-task-guard-clause', ['C01'], RB,
         "        if not self._is_closing:\n            return asyncio.create_task(task_factory())",
         "        if self._is_closing:\n            return None\n        return asyncio.create_task(task_factory())", kind='twin')
+
+# C20.l the empty-response filter
+variant('b-response-with-one-empty-part-withheld', ['C20'], 'rsocket/helpers.py',
+        "    return safe_len(payload.data) == 0 and safe_len(payload.metadata) == 0",
+        "    return safe_len(payload.data) == 0 or safe_len(payload.metadata) == 0",
+        ('C20.l', 'is_non_empty_payload'))
+variant('b-response-filter-ignores-metadata', ['C20'], 'rsocket/helpers.py',
+        "    return safe_len(payload.data) == 0 and safe_len(payload.metadata) == 0",
+        "    return safe_len(payload.data) == 0", ('C20.l', 'is_non_empty_payload'))
+variant('b-rx-response-distinct', ['C20'], 'rsocket/reactivex/reactivex_client.py',
+        "            operators.filter(is_non_empty_payload)\n",
+        "            operators.filter(is_non_empty_payload),\n            operators.take_while(lambda p: p.data is not None)\n",
+        ('C20.l', 'ReactiveXClient.request_response'))
+variant('t-response-filter-by-truthiness', ['C20'], 'rsocket/helpers.py',
+        "    return safe_len(payload.data) == 0 and safe_len(payload.metadata) == 0",
+        "    return not payload.data and not payload.metadata", kind='twin')
+
+# C11.e the cancel helper cancels
+variant('b-cancel-helper-only-waits', ['C11'], 'rsocket/helpers.py',
+        "        task.cancel()\n\n        try:\n            await task", "        try:\n            await task",
+        ('C11.e', 'cancel_if_task_exists / cancels and awaits'))
+variant('b-cancel-helper-does-not-wait', ['C11'], 'rsocket/helpers.py',
+        "        try:\n            await task\n        except asyncio.CancelledError:",
+        "        try:\n            await asyncio.sleep(0)\n        except asyncio.CancelledError:",
+        ('C11.e', 'cancel_if_task_exists / cancels and awaits'))
+variant('b-cancel-helper-skips-running-tasks', ['C11'], 'rsocket/helpers.py',
+        "    if task is not None and not task.done():", "    if task is not None and task.done():",
+        ('C11.e', 'cancel_if_task_exists / cancels and awaits'))
